@@ -389,7 +389,12 @@ class StmtMixin:
     def s_Raise(self, s, st):
         e = s.exc
         if e is None:
-            raise Unsupported("bare raise", s)
+            # bare `raise` inside a handler: the exception being handled propagates again
+            cur = st.env.get("__handled_exc__")
+            if cur is None:
+                raise Unsupported("bare raise outside a handler", s)
+            st.tag("reraise:%s@%s" % (cur.t, self.ordinal(s)))
+            return [Outcome("raise", st, exc=cur.t)]
         if isinstance(e, ast.Call):
             e = e.func
         if isinstance(e, ast.Name):
@@ -558,6 +563,7 @@ class StmtMixin:
                         break
                     hs = o.st
                     hs.tag("except@%s" % self.ordinal(s))
+                    hs.env["__handled_exc__"] = Val(TU("Exc"), o.exc)
                     if h.name:
                         hs.env[h.name] = Val(TU("Exc"), o.exc)
                     res += self.exec_block(h.body, hs)
